@@ -19,6 +19,7 @@ import (
 	"verif/h/gen"
 	"verif/h/hx"
 	"verif/h/lx"
+	"verif/h/mut"
 	"verif/h/walk"
 )
 
@@ -201,6 +202,48 @@ func TestCorpora(t *testing.T) {
 			hx.NonTrivial(x)
 		}
 	}
+}
+
+func TestClangCorpus(t *testing.T) {
+	const test = "ClangCorpus"
+	hx.Rule(test, "clang-14 output for corpus/src x corpus.ClangVariants (see C01), every third case in the quick tier: same repetition oracle (8 parses)")
+	cases := corpus.ClangCases()
+	for i, c := range cases {
+		if !hx.Mine(i) || !hx.Thorough() && i%3 != 0 {
+			continue
+		}
+		x := c.Text()
+		if x == "" {
+			hx.Discard("clang_rejects_combination")
+			continue
+		}
+		o := cases[(i+7)%len(cases)].Text()
+		hx.Eval(1)
+		checkInput(t, test, x, []string{o}, 8)
+		hx.NonTrivial("clang/" + c.Name())
+	}
+}
+
+func TestMutatedCorpus(t *testing.T) {
+	const test = "MutatedCorpus"
+	hx.Rule(test, "repository testdata and llvm-stress programs changed by 1..3 drawn text mutations (h/mut), kept when llvm-as and the parser accept them: same repetition oracle (12 parses, interleaved with two other inputs)")
+	var texts []string
+	for _, f := range corpus.RepoTestdata() {
+		if len(f.Text) < 16<<10 {
+			texts = append(texts, f.Text)
+		}
+	}
+	hx.Check(t, test, hx.N(16, 500), func(rt *rapid.T) {
+		x, _, ok := mut.Valid(rt)
+		if !ok {
+			hx.Discard("mutated_text_not_valid_or_not_accepted")
+			return
+		}
+		i := rapid.IntRange(0, len(texts)-2).Draw(rt, "other")
+		hx.Eval(1)
+		checkInput(rt, test, x, texts[i:i+2], 12)
+		hx.NonTrivial(x)
+	})
 }
 
 func TestConcurrentParses(t *testing.T) {
